@@ -200,6 +200,9 @@ def declared_environment(out: Outcome) -> None:
 
         guarded_imports, guarded_attrs, attr_try = set(), {}, set()
         for node in ast.walk(tree):
+            # `if TYPE_CHECKING:` / `if typing.TYPE_CHECKING:` - False at run time by definition: imports in its body are never executed
+            if isinstance(node, ast.If) and ((isinstance(node.test, ast.Name) and node.test.id == "TYPE_CHECKING") or (isinstance(node.test, ast.Attribute) and node.test.attr == "TYPE_CHECKING")):
+                guarded_imports |= {id(x) for sub in node.body for x in ast.walk(sub) if isinstance(x, (ast.Import, ast.ImportFrom))}
             if isinstance(node, ast.Try):
                 if any(catches(h, ("ImportError", "ModuleNotFoundError", "Exception", "BaseException")) for h in node.handlers):
                     guarded_imports |= {id(x) for x in node.body if isinstance(x, (ast.Import, ast.ImportFrom))}
